@@ -580,3 +580,6 @@ for op in BIG_OPS:
          desc="execute(%s) on the scalar slice of the state: size fields, cursor, margins, saved position symbolic for EVERY screen size up to 2^31 x 2^31 "
               "(buffers 1x1; the operation reads no buffer): same closed forms, no overflow in the usize/isize arithmetic" % op,
          bounds="cols, rows any in 1..=2^31; all u16 parameters", optional_covers=[])
+
+inst("buffer_new_any_limit", "buffer", "t_buffer_new_any_limit()", 4, {"C01": Q, "C13": Q}, mem=8,
+     desc="Buffer::new(1, 1, Some(limit)) for every usize limit: no capacity / arithmetic overflow, hard limit formula", bounds="1x1 screen, limit any usize")
